@@ -229,6 +229,27 @@ class RealRun:
             self.sched = None
             ev['loaded'] = snap_state(self.pre.state_dict())
             w.set_digest(self._digest)
+        elif kind == 'setneg':
+            # load negative definite A factors (a state a user may hand to
+            # load_state_dict): with the inverse method <V,D> is negative
+            sd = self.pre.state_dict()
+            for st in sd['layers'].values():
+                n = st['A'].shape[0]
+                st['A'] = (-float(op[1]) * torch.eye(n, dtype=F64)).to(
+                    st['A'].dtype)
+            self.pre.load_state_dict(sd)
+        elif kind == 'setcorr':
+            # load A factors with strongly correlated features (rho), G = I:
+            # the preconditioned gradient then has entries of both signs
+            # relative to the gradient
+            sd = self.pre.state_dict()
+            for st in sd['layers'].values():
+                n = st['A'].shape[0]
+                A = torch.full((n, n), float(op[1]), dtype=F64)
+                A.fill_diagonal_(1.0)
+                st['A'] = A.to(st['A'].dtype)
+                st['G'] = torch.eye(st['G'].shape[0], dtype=st['G'].dtype)
+            self.pre.load_state_dict(sd)
         elif kind == 'keep':
             # keep a state in memory WITHOUT copying it (as a training loop
             # tracking its best checkpoint would) while training continues
